@@ -403,7 +403,7 @@ class SolverWrapper:
             The name of the constraint
         """
 
-        num_bits = ceil(log2(ub + 1))
+        num_bits = int(ceil(ub)).bit_length()  # least n with ub + 1 <= 2**n, exact (float log2 is off by one from 2**49 on)
         bits = list(range(num_bits))
 
         binary_vars = self.add_variables(
